@@ -198,6 +198,12 @@ func c05destroy(w *W, kind string, n int, ci int, dir string, console *chunkSink
 			cfg["logger.lg.bufferFullPolicy"] = "Discard"
 			cfg["logger.lg.bufferSize"] = fmt.Sprint(n + 100)
 		}
+	case "async-slow-backlog":
+		// seconds of queued work at the moment of Destroy: a slow appender ahead of the file appender
+		cfg["appender.s.type"], cfg["appender.s.delayUs"] = "VSlow", "5000"
+		cfg["appender.f.type"], cfg["appender.f.fileDir"], cfg["appender.f.fileName"] = "File", dir, "x.log"
+		cfg["logger.lg.type"], cfg["logger.lg.bufferFullPolicy"], cfg["logger.lg.bufferSize"] = "AsyncLogger", "Block", "5000"
+		cfg["logger.lg.appenderRef[0].ref"], cfg["logger.lg.appenderRef[1].ref"] = "s", "f"
 	case "async-console":
 		cfg["appender.c.type"] = "Console"
 		cfg["logger.lg.type"], cfg["logger.lg.appenderRef.ref"], cfg["logger.lg.bufferFullPolicy"] = "AsyncLogger", "c", "Block"
@@ -258,7 +264,7 @@ func c05destroy(w *W, kind string, n int, ci int, dir string, console *chunkSink
 		catch(log.Destroy)
 		return fmt.Sprintf("log call panicked: %v\n%s", pvLog, trunc(st, 800)), "log-panic"
 	}
-	ok, pv, dump := callWithWatchdog(30*time.Second, log.Destroy)
+	ok, pv, dump := callWithWatchdog(time.Duration(30+n/20)*time.Second, log.Destroy)
 	if !ok {
 		if blocked, gr := blockedInLibrary(dump, "watchdogMarker"); blocked {
 			return "Destroy does not return; parked goroutine:\n" + trunc(gr, 1200), "destroy-hangs"
@@ -352,6 +358,42 @@ func c05rollfds(w *W, writers, boundaries int, ci int, dir string) (string, stri
 	w.CountMax("max_fds_at_quiescent_points", int64(maxFds))
 	w.Count("rotations_hit", y.counts()["roll.rotate.cas"])
 	w.Count("rotation_checks_passed", y.counts()["roll.rotate.checked"])
+	return "", ""
+}
+
+// c05outageFds: the log directory disappears across a boundary (the rotation fails), comes back, and the
+// appender is stopped: no descriptor of the stopped appender may remain, whatever happened in between.
+func c05outageFds(w *W, ci int, dir string, restore bool) (string, string) {
+	_ = os.RemoveAll(dir)
+	away := dir + ".away"
+	_ = os.RemoveAll(away)
+	_ = os.MkdirAll(dir, 0755)
+	defer os.RemoveAll(away)
+	ap := &log.RollingFileAppender{AppenderBase: log.AppenderBase{Name: "roll"}, Layout: &log.TextLayout{}, FileDir: dir, FileName: "o.log", Rotation: log.TimeRotation{Interval: time.Second}, MaxAge: 24}
+	if err := ap.Start(); err != nil {
+		return "start: " + err.Error(), "start"
+	}
+	write := func(d time.Duration) {
+		for t0 := time.Now(); time.Since(t0) < d; {
+			ap.Write([]byte("id-o1-1 line\n"))
+			time.Sleep(2 * time.Millisecond)
+		}
+	}
+	write(1100 * time.Millisecond) // one healthy rotation first: a previous-rotation file exists
+	if err := os.Rename(dir, away); err != nil {
+		ap.Stop()
+		return "rename: " + err.Error(), "inconclusive"
+	}
+	write(2200 * time.Millisecond) // two boundaries fail
+	if restore {
+		_ = os.Rename(away, dir)
+		write(1100 * time.Millisecond)
+	}
+	ap.Stop()
+	fds := append(fdsInto(dir), fdsInto(away)...)
+	if len(fds) != 0 {
+		return fmt.Sprintf("descriptors of the stopped appender are still open after rotations failed (directory away, restored=%v): %v", restore, fds), "fd-leak-after-failed-rotation"
+	}
 	return "", ""
 }
 
@@ -464,7 +506,7 @@ func c05Worker(w *W) {
 	case "destroy":
 		kinds := []string{"async-file", "async-file-discard-policy", "async-console", "sync-file", "sync-rollingappender", "file-logger", "console-logger", "discard-logger",
 			"rolling-sync", "rolling-sync-separate", "rolling-async", "rolling-async-separate", "rolling-async-layout", "rolling-async-discardoldest",
-			"root-async-file", "root-rolling-async", "root-file-logger"}
+			"root-async-file", "root-rolling-async", "root-file-logger", "async-slow-backlog"}
 		for rep := 0; rep < int(w.Spec.N); rep++ {
 			for _, kind := range kinds {
 				ci++
@@ -472,6 +514,12 @@ func c05Worker(w *W) {
 					continue
 				}
 				n := []int{0, 1, 50, 400, 3000}[r.IntN(5)]
+				if kind == "async-slow-backlog" {
+					if rep > 0 {
+						continue
+					}
+					n = int(w.ArgInt("backlog_items", 1300))
+				}
 				cs := map[string]any{"logger_kind": kind, "events": n}
 				w.Journal("destroy %v", cs)
 				d, cls := c05destroy(w, kind, n, ci, dir, console, tag)
@@ -496,6 +544,16 @@ func c05Worker(w *W) {
 		} else {
 			w.Distinct(fmt.Sprintf("rollfds|w%d|b%d|%s", writers, w.Spec.N, w.Spec.Flavour))
 			w.Sample(cs)
+		}
+	case "outagefds":
+		restore := w.Arg("restore", "true") == "true"
+		d, cls := c05outageFds(w, w.Spec.Shard, dir, restore)
+		w.Eval(1)
+		if d != "" {
+			report("rolling:"+cls, d, map[string]any{"scenario": "directory away across two boundaries, then Stop", "restored": restore})
+		} else {
+			w.Distinct(fmt.Sprintf("outagefds|restore=%v", restore))
+			w.Sample(map[string]any{"scenario": "directory away across two boundaries, then Stop", "restored": restore})
 		}
 	case "stalledrotator":
 		point := w.Arg("point", "roll.rotate.cas")
@@ -551,8 +609,8 @@ func init() {
 	register(&Prop{
 		ID: "C05", Level: "exploration", MinDistinct: 100, Worker: c05Worker,
 		Rule: "(a) AsyncLogger (file appender behind a gate/slow/recording appender): every policy x buffer {100,101} x occupancy at Stop in {0,1,cap/2,cap-1,cap, 2 seeded others} (+1 extra item into the full buffer for the discard policies) x worker state {idle, parked mid-append, slowed}; Stop is called from a goroutine, the gate is opened, and the moment Stop returns the target file is read: exactly the accepted ids (queue model identifies DiscardOldest victims) must be present once, the counter must match, no descriptor may point into the log directory. " +
-			"(b) Destroy for 17 logger kinds/configurations (three of them as the configured root logger) reachable through Refresh (async/sync x file/console/rolling, File/Console/Discard/RollingFile logger kinds incl. async rolling with Block and DiscardOldest, separate, logger-level layout) with 0-3000 events: everything logged must be readable from the file/console stream right after Destroy returns, no descriptors left. " +
-			"(c) a running rolling file appender (1 s interval) with 2-8 writers crossing 3-5 real boundaries together (barrier at the interval check): <= 2 descriptors at every quiescent point, 0 after Stop. (d) Start/Write/Stop/Stop on every appender kind. Hangs are decided from goroutine dumps (call parked in the library), not deadlines. distinct_nontrivial = distinct parameter tuples that held.",
+			"(b) Destroy for 18 logger kinds/configurations (three of them as the configured root logger, one with 6.5 s of queued work behind a slow appender) reachable through Refresh (async/sync x file/console/rolling, File/Console/Discard/RollingFile logger kinds incl. async rolling with Block and DiscardOldest, separate, logger-level layout) with 0-3000 events: everything logged must be readable from the file/console stream right after Destroy returns, no descriptors left. " +
+			"(c) a running rolling file appender (1 s interval) with 2-8 writers crossing 3-5 real boundaries together (barrier at the interval check): <= 2 descriptors at every quiescent point, 0 after Stop. (d) Start/Write/Stop/Stop on every appender kind; a rolling appender whose directory disappears across two boundaries and is then stopped must leave no descriptor behind; the rotating goroutine is stalled for 1.4 intervals at three points. Hangs are decided from goroutine dumps (call parked in the library), not deadlines. distinct_nontrivial = distinct parameter tuples that held.",
 		Assumptions: []string{"no log call is in progress when Stop/Destroy is called (statement's precondition)", "rolling-boundary interleavings are those the scheduler produced around real 1 s boundaries (rotations observed are reported)"},
 		Run: func(d *D) {
 			var specs []Spec
@@ -586,6 +644,11 @@ func init() {
 				specs = append(specs, s)
 			}
 			specs = append(specs, d.NewSpec("doublestop", "doublestop", 0, 1))
+			for i, rs := range []string{"true", "false"} {
+				s := d.NewSpec("outagefds", "outagefds-"+rs, i, 2)
+				s.Args["restore"] = rs
+				specs = append(specs, s)
+			}
 			for i, pt := range []string{"roll.rotate.cas", "roll.rotate.closedold", "roll.rotate.created"} {
 				s := d.NewSpec("stalledrotator", fmt.Sprintf("stalledrotator-%d", i), i, 3)
 				s.Args["point"] = pt
